@@ -525,3 +525,11 @@ def formula_of(ctx: Ctx, fn: FuncInfo, text_or_expr):
     from .formula import parse_expr
     e = parse_expr(text_or_expr) if isinstance(text_or_expr, str) else text_or_expr
     return ctx.fb(fn).build(e)
+
+
+MEMO_DECORATORS = ('lru_cache', 'cache', 'cached_property', 'memoize', 'memoized', 'cached')
+
+
+def memo_decorators(fn: FuncInfo) -> list[str]:
+    """Decorators that memoise a function by argument equality (functools.lru_cache & co)."""
+    return [d for d in fn.decorators if d.split('.')[-1] in MEMO_DECORATORS]
